@@ -111,7 +111,8 @@ class TlcResult:
         self.wall = 0.0
 
 
-_tlc_seq = [0]
+import itertools
+_tlc_seq = itertools.count(1)      # next() is atomic: run_tlc is called from several threads
 
 
 def run_tlc(module, cfg, workers=4, timeout=900, xmx="6g", env_extra=None, simulate=None,
@@ -119,8 +120,7 @@ def run_tlc(module, cfg, workers=4, timeout=900, xmx="6g", env_extra=None, simul
     """Run TLC on spec/<module>.tla with spec/<cfg>. Raises ToolError when TLC itself fails
     (parse error, invariant of the *model* violated, timeout): the model being wrong is a
     tooling error, not a property violation of the code."""
-    _tlc_seq[0] += 1
-    md = os.path.join(WORK, "tlc", f"{os.getpid()}_{_tlc_seq[0]}_{module}")
+    md = os.path.join(WORK, "tlc", f"{os.getpid()}_{next(_tlc_seq)}_{module}")
     shutil.rmtree(md, ignore_errors=True)
     os.makedirs(md, exist_ok=True)
     cmd = ["java", "-XX:+UseParallelGC", f"-Xmx{xmx}", *java_opts, "-cp", TLA_CP, "tlc2.TLC",
@@ -186,8 +186,7 @@ def validate_trace(module, cfg, trace_path, timeout=900, xmx="3g"):
     Returns (accepted, info). Acceptance is decided by the POSTCONDITION of the trace spec, which
     consumes every line, records the lines it cannot match and prints `"TRACE_REJECTED <line>"`
     for each; the POSTCONDITION requires the whole trace to have been consumed."""
-    _tlc_seq[0] += 1
-    md = os.path.join(WORK, "tlc", f"{os.getpid()}_{_tlc_seq[0]}_{module}")
+    md = os.path.join(WORK, "tlc", f"{os.getpid()}_{next(_tlc_seq)}_{module}")
     shutil.rmtree(md, ignore_errors=True)
     os.makedirs(md, exist_ok=True)
     env = dict(os.environ, TRACE=trace_path,
